@@ -3,7 +3,6 @@
 From V.model Require Import Base DebVersion.
 From V.proofs Require Import BaseP.
 From Coq Require Import ZArith.
-Set Default Timeout 30.
 
 (* ------------------------------------------------------------------ comparison functions
    that describe a total preorder: antisymmetric, Eq is a congruence, Lt is transitive *)
